@@ -868,6 +868,11 @@ func monitor(c scase, o runObs) []core.Violation {
 	var vs []core.Violation
 	add := func(sig, what string) {
 		vs = append(vs, core.Violation{Property: "C12", Signature: sig, What: what, Case: c})
+		if sig == "written-without-complete-object" {
+			// the same history under C01: what this worker reports written is what the ledger counts and the
+			// client acknowledges; a report without the records in the sink is an acknowledgement without them
+			vs = append(vs, core.Violation{Property: "C01", Signature: "s3/" + sig, What: what, Case: c})
+		}
 	}
 	type wk struct {
 		full string
